@@ -1,12 +1,21 @@
+model/Engine.vo model/Engine.glob model/Engine.v.beautified model/Engine.required_vo: model/Engine.v model/Prelude.vo model/U128.vo model/SInt.vo model/Feed.vo model/Vamm.vo model/Token.vo model/World.vo
+model/Engine.vio: model/Engine.v model/Prelude.vio model/U128.vio model/SInt.vio model/Feed.vio model/Vamm.vio model/Token.vio model/World.vio
+model/Engine.vos model/Engine.vok model/Engine.required_vos: model/Engine.v model/Prelude.vos model/U128.vos model/SInt.vos model/Feed.vos model/Vamm.vos model/Token.vos model/World.vos
 model/Feed.vo model/Feed.glob model/Feed.v.beautified model/Feed.required_vo: model/Feed.v model/Prelude.vo model/U128.vo
 model/Feed.vio: model/Feed.v model/Prelude.vio model/U128.vio
 model/Feed.vos model/Feed.vok model/Feed.required_vos: model/Feed.v model/Prelude.vos model/U128.vos
 model/Prelude.vo model/Prelude.glob model/Prelude.v.beautified model/Prelude.required_vo: model/Prelude.v 
 model/Prelude.vio: model/Prelude.v 
 model/Prelude.vos model/Prelude.vok model/Prelude.required_vos: model/Prelude.v 
+model/Runtime.vo model/Runtime.glob model/Runtime.v.beautified model/Runtime.required_vo: model/Runtime.v model/Prelude.vo model/U128.vo model/SInt.vo model/Feed.vo model/Vamm.vo model/Token.vo model/World.vo model/Engine.vo
+model/Runtime.vio: model/Runtime.v model/Prelude.vio model/U128.vio model/SInt.vio model/Feed.vio model/Vamm.vio model/Token.vio model/World.vio model/Engine.vio
+model/Runtime.vos model/Runtime.vok model/Runtime.required_vos: model/Runtime.v model/Prelude.vos model/U128.vos model/SInt.vos model/Feed.vos model/Vamm.vos model/Token.vos model/World.vos model/Engine.vos
 model/SInt.vo model/SInt.glob model/SInt.v.beautified model/SInt.required_vo: model/SInt.v model/Prelude.vo model/U128.vo
 model/SInt.vio: model/SInt.v model/Prelude.vio model/U128.vio
 model/SInt.vos model/SInt.vok model/SInt.required_vos: model/SInt.v model/Prelude.vos model/U128.vos
+model/Token.vo model/Token.glob model/Token.v.beautified model/Token.required_vo: model/Token.v model/Prelude.vo model/U128.vo
+model/Token.vio: model/Token.v model/Prelude.vio model/U128.vio
+model/Token.vos model/Token.vok model/Token.required_vos: model/Token.v model/Prelude.vos model/U128.vos
 model/U128.vo model/U128.glob model/U128.v.beautified model/U128.required_vo: model/U128.v model/Prelude.vo
 model/U128.vio: model/U128.v model/Prelude.vio
 model/U128.vos model/U128.vok model/U128.required_vos: model/U128.v model/Prelude.vos
@@ -16,6 +25,9 @@ model/Vamm.vos model/Vamm.vok model/Vamm.required_vos: model/Vamm.v model/Prelud
 model/VammOps.vo model/VammOps.glob model/VammOps.v.beautified model/VammOps.required_vo: model/VammOps.v model/Prelude.vo model/U128.vo model/SInt.vo model/Feed.vo model/Vamm.vo
 model/VammOps.vio: model/VammOps.v model/Prelude.vio model/U128.vio model/SInt.vio model/Feed.vio model/Vamm.vio
 model/VammOps.vos model/VammOps.vok model/VammOps.required_vos: model/VammOps.v model/Prelude.vos model/U128.vos model/SInt.vos model/Feed.vos model/Vamm.vos
+model/World.vo model/World.glob model/World.v.beautified model/World.required_vo: model/World.v model/Prelude.vo model/U128.vo model/SInt.vo model/Feed.vo model/Vamm.vo model/Token.vo
+model/World.vio: model/World.v model/Prelude.vio model/U128.vio model/SInt.vio model/Feed.vio model/Vamm.vio model/Token.vio
+model/World.vos model/World.vok model/World.required_vos: model/World.v model/Prelude.vos model/U128.vos model/SInt.vos model/Feed.vos model/Vamm.vos model/Token.vos
 proofs/SIntFacts.vo proofs/SIntFacts.glob proofs/SIntFacts.v.beautified proofs/SIntFacts.required_vo: proofs/SIntFacts.v model/Prelude.vo model/U128.vo model/SInt.vo proofs/Tactics.vo
 proofs/SIntFacts.vio: proofs/SIntFacts.v model/Prelude.vio model/U128.vio model/SInt.vio proofs/Tactics.vio
 proofs/SIntFacts.vos proofs/SIntFacts.vok proofs/SIntFacts.required_vos: proofs/SIntFacts.v model/Prelude.vos model/U128.vos model/SInt.vos proofs/Tactics.vos
